@@ -151,12 +151,14 @@ def check_mutator(ctx, m, exempt, helpers):
         if ev["how"] == "store" and len(ev["path"]) == 1 and ev.get("value") is not None and self_field_term(ev["value"]) == fld and not ev.get("via"):
             snapshots.setdefault(fld, set()).add(ev.get("value_local"))
             dirty = frozenset(x for x in dirty if x[0] != fld)
+            logged = frozenset(x for x in logged if x[0] != fld)  # a whole-field restore supersedes the undo log
             return (dirty, logged, None)
         if ev["how"] == "call" and ev.get("name") in ("swap", "replace") and len(ev["args"]) == 2 and not ev.get("via"):
             other = ev["args"][1 - ev.get("argi", 0)]
             if self_field_term(other) == fld:
                 snapshots.setdefault(fld, set()).add(None)
                 dirty = frozenset(x for x in dirty if x[0] != fld)
+                logged = frozenset(x for x in logged if x[0] != fld)
                 return (dirty, logged, None)
         # a real write
         site_bb = ev["bb"] if not ev.get("via") else None
